@@ -1,4 +1,7 @@
 pub mod c01;
+pub mod c02;
+pub mod c03;
+pub mod nearmiss_streams;
 pub mod c06;
 pub mod common;
 pub mod c20;
@@ -7,5 +10,5 @@ pub mod genpool;
 use crate::run::PropertyDef;
 
 pub fn all() -> Vec<PropertyDef> {
-    vec![c01::def(), c06::def(), c20::def()]
+    vec![c01::def(), c02::def(), c03::def(), c06::def(), c20::def()]
 }
